@@ -185,3 +185,159 @@ package expressions
 //@ panics nothing
 //@ assigns alloc F$expressions.context$Config, alloc F$expressions.context$bindings
 //@ ensures ctx: result != nil && is(result, *expressions.context) && fresh(as(result, *expressions.context)) && valid(as(result, *expressions.context)) && as(result, *expressions.context).bindings == vars
+
+// ---- operator actions of the grammar (C09): each evaluates its left operand, then its right
+// operand, once each, and returns the wrapper of exactly the comparison named by the operator.
+// The closures are keyed by ordinal (they have no other name); `expect` and the call hooks pin
+// the shape, so a shifted ordinal fails loudly.
+//@ func (*expressions.yyParserImpl).Parse$6
+//@ expect func(ctx expressions.Context) values.Value
+//@ implements func(expressions.Context) values.Value
+//@ props C09 C01
+//@ panics values.TypeError, expressions.InterpreterError, expressions.UndefinedFilter, expressions.FilterError
+//@ requires captured: fa != nil && fb != nil
+//@ ghost a Val = nil
+//@ ghost b Val = nil
+//@ ghost r1 Bool = false
+//@ ghost r2 Bool = false
+//@ at call fa #1 before assert leftFirst: b == nil
+//@ at call fa #1: a = result
+//@ at call fb #1: b = result
+//@ at call Equal #1 before assert operands1: this == a && arg0 == b
+//@ at call Equal #1: r1 = result
+//@ ensures equal: result != nil && result.Interface() == box(r1, bool)
+
+//@ func (*expressions.yyParserImpl).Parse$7
+//@ expect func(ctx expressions.Context) values.Value
+//@ implements func(expressions.Context) values.Value
+//@ props C09 C01
+//@ panics values.TypeError, expressions.InterpreterError, expressions.UndefinedFilter, expressions.FilterError
+//@ requires captured: fa != nil && fb != nil
+//@ ghost a Val = nil
+//@ ghost b Val = nil
+//@ ghost r1 Bool = false
+//@ ghost r2 Bool = false
+//@ at call fa #1 before assert leftFirst: b == nil
+//@ at call fa #1: a = result
+//@ at call fb #1: b = result
+//@ at call Equal #1 before assert operands1: this == a && arg0 == b
+//@ at call Equal #1: r1 = result
+//@ ensures notEqual: result != nil && result.Interface() == box(!r1, bool)
+
+//@ func (*expressions.yyParserImpl).Parse$8
+//@ expect func(ctx expressions.Context) values.Value
+//@ implements func(expressions.Context) values.Value
+//@ props C09 C01
+//@ panics values.TypeError, expressions.InterpreterError, expressions.UndefinedFilter, expressions.FilterError
+//@ requires captured: fa != nil && fb != nil
+//@ ghost a Val = nil
+//@ ghost b Val = nil
+//@ ghost r1 Bool = false
+//@ ghost r2 Bool = false
+//@ at call fa #1 before assert leftFirst: b == nil
+//@ at call fa #1: a = result
+//@ at call fb #1: b = result
+//@ at call Less #1 before assert operands1: this == b && arg0 == a
+//@ at call Less #1: r1 = result
+//@ ensures greater: result != nil && result.Interface() == box(r1, bool)
+
+//@ func (*expressions.yyParserImpl).Parse$9
+//@ expect func(ctx expressions.Context) values.Value
+//@ implements func(expressions.Context) values.Value
+//@ props C09 C01
+//@ panics values.TypeError, expressions.InterpreterError, expressions.UndefinedFilter, expressions.FilterError
+//@ requires captured: fa != nil && fb != nil
+//@ ghost a Val = nil
+//@ ghost b Val = nil
+//@ ghost r1 Bool = false
+//@ ghost r2 Bool = false
+//@ at call fa #1 before assert leftFirst: b == nil
+//@ at call fa #1: a = result
+//@ at call fb #1: b = result
+//@ at call Less #1 before assert operands1: this == a && arg0 == b
+//@ at call Less #1: r1 = result
+//@ ensures less: result != nil && result.Interface() == box(r1, bool)
+
+//@ func (*expressions.yyParserImpl).Parse$10
+//@ expect func(ctx expressions.Context) values.Value
+//@ implements func(expressions.Context) values.Value
+//@ props C09 C01
+//@ panics values.TypeError, expressions.InterpreterError, expressions.UndefinedFilter, expressions.FilterError
+//@ requires captured: fa != nil && fb != nil
+//@ ghost a Val = nil
+//@ ghost b Val = nil
+//@ ghost r1 Bool = false
+//@ ghost r2 Bool = false
+//@ at call fa #1 before assert leftFirst: b == nil
+//@ at call fa #1: a = result
+//@ at call fb #1: b = result
+//@ at call Less #1 before assert operands1: this == b && arg0 == a
+//@ at call Less #1: r1 = result
+//@ at call Equal #1 before assert operands2: this == a && arg0 == b
+//@ at call Equal #1: r2 = result
+//@ ensures greaterOrEqual: result != nil && result.Interface() == box(r1 || r2, bool)
+
+//@ func (*expressions.yyParserImpl).Parse$11
+//@ expect func(ctx expressions.Context) values.Value
+//@ implements func(expressions.Context) values.Value
+//@ props C09 C01
+//@ panics values.TypeError, expressions.InterpreterError, expressions.UndefinedFilter, expressions.FilterError
+//@ requires captured: fa != nil && fb != nil
+//@ ghost a Val = nil
+//@ ghost b Val = nil
+//@ ghost r1 Bool = false
+//@ ghost r2 Bool = false
+//@ at call fa #1 before assert leftFirst: b == nil
+//@ at call fa #1: a = result
+//@ at call fb #1: b = result
+//@ at call Less #1 before assert operands1: this == a && arg0 == b
+//@ at call Less #1: r1 = result
+//@ at call Equal #1 before assert operands2: this == a && arg0 == b
+//@ at call Equal #1: r2 = result
+//@ ensures lessOrEqual: result != nil && result.Interface() == box(r1 || r2, bool)
+
+//@ func (*expressions.yyParserImpl).Parse$12
+//@ expect func(ctx expressions.Context) values.Value
+//@ implements func(expressions.Context) values.Value
+//@ props C09 C10 C01
+//@ panics values.TypeError, expressions.InterpreterError, expressions.UndefinedFilter, expressions.FilterError
+//@ requires captured: fa != nil && fb != nil
+//@ ghost t1 Bool = false
+//@ ghost t2 Bool = false
+//@ ghost left Val = nil
+//@ ghost right Val = nil
+//@ at call fa #1: left = result
+//@ at call fb #1 before assert leftFirst: left != nil
+//@ at call fb #1: right = result
+//@ at call Test #1 before assert leftOperand: this == left
+//@ at call Test #1: t1 = result
+//@ at call Test #2 before assert rightOperand: this == right
+//@ at call Test #2: t2 = result
+//@ ensures and: result != nil && result.Interface() == box(t1 && t2, bool)
+
+//@ func (*expressions.yyParserImpl).Parse$13
+//@ expect func(ctx expressions.Context) values.Value
+//@ implements func(expressions.Context) values.Value
+//@ props C09 C10 C01
+//@ panics values.TypeError, expressions.InterpreterError, expressions.UndefinedFilter, expressions.FilterError
+//@ requires captured: fa != nil && fb != nil
+//@ ghost t1 Bool = false
+//@ ghost t2 Bool = false
+//@ ghost left Val = nil
+//@ ghost right Val = nil
+//@ at call fa #1: left = result
+//@ at call fb #1 before assert leftFirst: left != nil
+//@ at call fb #1: right = result
+//@ at call Test #1 before assert leftOperand: this == left
+//@ at call Test #1: t1 = result
+//@ at call Test #2 before assert rightOperand: this == right
+//@ at call Test #2: t2 = result
+//@ ensures or: result != nil && result.Interface() == box(t1 || t2, bool)
+
+// a name denotes its binding
+//@ func (*expressions.yyParserImpl).Parse$5
+//@ expect func(ctx expressions.Context) values.Value
+//@ implements func(expressions.Context) values.Value
+//@ props C08 C01
+//@ panics values.TypeError, expressions.InterpreterError, expressions.UndefinedFilter, expressions.FilterError
+//@ ensures nonnil: result != nil
